@@ -751,6 +751,23 @@ func corpus() []*Case {
 		c2.Send[0].AmtStr = "0.00000001"
 		cs = append(cs, c2)
 	}
+	// a wallet whose third key had its compressed public key listed with the wrong parity before fix 63bfb7fc
+	{
+		wp := WCfg{Type: 3, Atype: "segwit", Keycnt: 4, Seed: "s1", Pass: "pwdfcd"}
+		pp, err := walletPubkeys(&wp)
+		if err != nil {
+			fmt.Println("INFRA:", err)
+			os.Exit(3)
+		}
+		op := defOpts()
+		op.w = &wp
+		for k := range pp {
+			op.plans = append(op.plans, coinPlan{ownScript("p2wpkh", pp[k]), 100000 + uint64(k)}, coinPlan{ownScript("p2pkh", pp[k]), 200000 + uint64(k)},
+				coinPlan{ownScript("p2tr", pp[k]), 300000 + uint64(k)}, coinPlan{ownScript("p2sh", pp[k]), 400000 + uint64(k)})
+		}
+		op.subfee, op.msgLen, op.change, op.useBatch, op.useAll, op.rfc, op.apply, op.mode, op.ndest = 0, 0, 0, 0, 1, 0, 1, 3, 1
+		cs = append(cs, genSend(g, "corpus/pubkey-parity", op))
+	}
 	// malformed
 	for k := 0; k < 24; k++ {
 		op := base()
